@@ -145,6 +145,15 @@ def m_slice_index_range(ex, st, fr, callee, a, depth):
     return st.ref(ListV(v.items[lo:hi]))
 
 
+def m_range_len(ex, st, fr, callee, a, depth):
+    r = deref(st, a[0])
+    if isinstance(r, IterV) and r.kind == 'range':
+        lo, hi = r.items
+    else:
+        lo, hi = r.get('start'), r.get('end')
+    return z3.simplify(z3.If(z3.ULE(lo, hi), hi - lo, BV(0, lo.size())))
+
+
 def m_range_contains_usize(ex, st, fr, callee, a, depth):
     r, x = deref(st, a[0]), deref(st, a[1])
     if r.tag == 'RangeInclusive':
@@ -380,6 +389,7 @@ MODELS2 = [
     (P(r'^<\[.*\] as (std::ops::)?Index<(std::ops::)?(RangeFrom|RangeTo|Range|RangeInclusive|RangeToInclusive|RangeFull)(<usize>)?>>::index$'), m_slice_index_range),
     (P(r'^<Vec<.*> as (std::ops::)?Index<(std::ops::)?(RangeFrom|RangeTo|Range|RangeInclusive|RangeToInclusive|RangeFull)(<usize>)?>>::index$'), m_slice_index_range),
     (P(r'Range(Inclusive)?::<usize>::contains::<usize>$'), m_range_contains_usize),
+    (P(r'^<std::ops::Range<usize> as ExactSizeIterator>::len$|^std::ops::Range::<usize>::len$'), m_range_len),
     (P(r' as Itertools>::sorted_by_key::<'), m_sorted_by_key),
     (P(r' as Itertools>::sorted_by::<'), m_sorted_by),
     (P(r' as Itertools>::sorted$'), m_sorted),
